@@ -17,7 +17,11 @@ const maxInlineDepth = 10
 func (x *Exec) doCall(fr *Frame, st *State, ins ssa.Instruction, cc *ssa.CallCommon) Value {
 	var args []Value
 	for _, a := range cc.Args {
-		args = append(args, x.get(fr, st, a))
+		v := x.get(fr, st, a)
+		if v.Local != "" {
+			unsup("address of non-escaping local %s passed to a call", v.Local)
+		}
+		args = append(args, v)
 	}
 	site := x.callSite(fr, ins, cc)
 	if cc.IsInvoke() {
@@ -78,8 +82,8 @@ func (x *Exec) callFunc(fr *Frame, st *State, ins ssa.Instruction, callee *ssa.F
 	switch {
 	case x.specs.contracts[key] != nil && !x.specs.contracts[key].Inline && !(fr.top.con == x.specs.contracts[key] && fr.parent == nil && false):
 		res = x.applyContract(fr, st, x.specs.contracts[key], callee.Signature, args, site, key)
-	case rules[key] != nil:
-		res = rules[key](x, fr, st, ins, callee.Signature, args)
+	case ruleFor(key) != nil:
+		res = ruleFor(key)(x, fr, st, ins, callee.Signature, args)
 	case len(callee.Blocks) > 0:
 		// inline, unless recursive
 		for f := fr; f != nil; f = f.parent {
@@ -200,7 +204,14 @@ func (x *Exec) callFuncValue(fr *Frame, st *State, ins ssa.Instruction, cc *ssa.
 	// a parameter / unknown function value
 	x.monitors(fr, st, name, name, "before", args, Value{}, sig, site)
 	var res Value
-	if cands := x.fnCandidates(cc.Value.Type()); len(cands) > 0 {
+	if uf := x.fnTypeUF(cc.Value.Type()); uf != "" && sig.Results().Len() == 1 {
+		x.assumed["A-options: values of the functional type "+types.TypeString(cc.Value.Type(), nil)+" are side-effect free functions of their arguments (the package's own literals are; their meaning is derived from their bodies)"] = true
+		ts := []*Term{fv.T}
+		for _, a := range args {
+			ts = append(ts, a.T)
+		}
+		res = Value{T: UF(uf, sortOf(sig.Results().At(0).Type()), ts...)}
+	} else if cands := x.fnCandidates(cc.Value.Type()); len(cands) > 0 {
 		res = x.dispatchCandidates(fr, st, ins, cands, args, sig, site, cc.Value.Type())
 	} else {
 		con := x.contractForFrame(fr.top)
@@ -219,6 +230,72 @@ func (x *Exec) callFuncValue(fr *Frame, st *State, ins ssa.Instruction, cc *ssa.
 	}
 	x.monitors(fr, st, name, name, "after", args, res, sig, site)
 	return res
+}
+
+func typeKeyPkgName(t types.Type) string {
+	n, ok := types.Unalias(t).(*types.Named)
+	if !ok || n.Obj().Pkg() == nil {
+		return ""
+	}
+	return n.Obj().Pkg().Name() + "." + n.Obj().Name()
+}
+
+func (x *Exec) fnTypeUF(t types.Type) string {
+	return x.specs.fnTypes[typeKeyPkgName(t)]
+}
+
+func (x *Exec) fnTypeByUF(uf string) types.Type {
+	for k, v := range x.specs.fnTypes {
+		if v == uf {
+			i := strings.Index(k, ".")
+			p := x.w.pkgByName(k[:i], nil)
+			if p == nil {
+				return nil
+			}
+			if o := p.Scope().Lookup(k[i+1:]); o != nil {
+				return o.Type()
+			}
+		}
+	}
+	return nil
+}
+
+// closureMeaning: for a literal whose signature is that of a functional function type, derive
+// "apply(f, c) == body(c)" by executing the body on a bound argument, and record it as a fact.
+func (x *Exec) closureMeaning(st *State, fr *Frame, fn *ssa.Function, clo *Closure, ft *Term) {
+	if len(fn.Blocks) == 0 || fn.Signature.Results().Len() != 1 {
+		return
+	}
+	for key, uf := range x.specs.fnTypes {
+		i := strings.Index(key, ".")
+		p := x.w.pkgByName(key[:i], nil)
+		if p == nil {
+			continue
+		}
+		o := p.Scope().Lookup(key[i+1:])
+		if o == nil || !types.Identical(o.Type().Underlying(), fn.Signature) {
+			continue
+		}
+		var args []Value
+		var bound []*Term
+		ts := []*Term{ft}
+		for _, prm := range fn.Params {
+			bv := BoundVar("q_arg_"+prm.Name(), sortOf(prm.Type()))
+			bound = append(bound, bv)
+			args = append(args, Value{T: bv})
+			ts = append(ts, bv)
+		}
+		x.dry++
+		rst, val, _ := x.runFunction(st.clone(), fn, args, clo, fr, nil, "meaning")
+		x.dry--
+		if rst == nil || val.T == nil {
+			continue
+		}
+		app := UF(uf, sortOf(fn.Signature.Results().At(0).Type()), ts...)
+		if x.dry == 0 {
+			x.facts = append(x.facts, Forall(bound, [][]*Term{{app}}, Eq(app, val.T)))
+		}
+	}
 }
 
 // fnCandidates: for a named function type declared in /repo, the function literals of /repo
@@ -356,7 +433,7 @@ func (x *Exec) callBuiltin(fr *Frame, st *State, ins ssa.Instruction, b *ssa.Bui
 	case "append":
 		return x.doAppend(fr, st, ins, cc, args)
 	case "copy":
-		unsup("builtin copy")
+		return x.doCopy(fr, st, cc, args)
 	case "close":
 		x.doClose(fr, st, ins, args[0])
 		return Value{}
@@ -382,13 +459,38 @@ func (x *Exec) callBuiltin(fr *Frame, st *State, ins ssa.Instruction, b *ssa.Bui
 	return Value{}
 }
 
+// doCopy: copy(dst, src) for slices.
+func (x *Exec) doCopy(fr *Frame, st *State, cc *ssa.CallCommon, args []Value) Value {
+	dt, ok := cc.Args[0].Type().Underlying().(*types.Slice)
+	if !ok {
+		unsup("copy into non-slice")
+	}
+	if _, isStr := cc.Args[1].Type().Underlying().(*types.Basic); isStr {
+		unsup("copy(bytes, string)")
+	}
+	d, s := args[0].T, args[1].T
+	es := sortOf(dt.Elem())
+	key, hs := elemHeapKey(dt.Elem())
+	h := st.H(key, hs)
+	n := Ite(Lt(sLen(d), sLen(s)), sLen(d), sLen(s))
+	row := Fresh("copyrow", arraySort("Int", es))
+	j := BoundVar("q_j", "Int")
+	dRow := Select(h, sArr(d))
+	sRow := Select(h, sArr(s))
+	// row[j] = src[j - off_d] for off_d <= j < off_d + n, else the old destination row
+	x.assume(st, Forall([]*Term{j}, [][]*Term{{Select(row, j)}}, Eq(Select(row, j),
+		Ite(And(Ge(j, sOff(d)), Lt(j, Add(sOff(d), n))), Select(sRow, ix(sOff(s), Sub(j, sOff(d)))), Select(dRow, j)))))
+	st.setH(key, Ite(Eq(n, Int(0)), h, Store(h, sArr(d), row)))
+	return Value{T: n}
+}
+
 // doAppend models append exactly: in place when capacity allows (the write is visible
 // through every alias of the backing array), otherwise a fresh array holding a copy.
 func (x *Exec) doAppend(fr *Frame, st *State, ins ssa.Instruction, cc *ssa.CallCommon, args []Value) Value {
 	s := args[0].T
 	et := cc.Args[0].Type().Underlying().(*types.Slice).Elem()
 	es := sortOf(et)
-	key, hs := elemHeapKey(es)
+	key, hs := elemHeapKey(et)
 	var add *Term
 	if _, isStr := cc.Args[1].Type().Underlying().(*types.Basic); isStr {
 		unsup("append(bytes, string...)")
@@ -586,10 +688,10 @@ func (x *Exec) applyContract(fr *Frame, st *State, con *Contract, sig *types.Sig
 	// havoc
 	if !con.Pure {
 		regions := x.modRegions(con, env)
-		x.havocRegions(st, pre, regions)
 		old := st.alloc
 		st.alloc = Fresh("alloc_call", "Int")
 		x.assume(st, Ge(st.alloc, old))
+		x.havocRegions(st, pre, regions)
 	}
 	res := x.resultValue(st, "res_"+key, sig.Results())
 	env2 := x.specEnvFor(con, sig, pkg, args, st, pre)
@@ -633,7 +735,7 @@ func (x *Exec) modRegion(e *Expr, env *SpecEnv) []modRegion {
 		if !ok {
 			env.errf(e, "spare() of non-slice")
 		}
-		key, hs := elemHeapKey(sortOf(sl.Elem()))
+		key, hs := elemHeapKey(sl.Elem())
 		heapSorts[key] = hs
 		t := s.T
 		return []modRegion{{Key: key, Sort: hs, In: func(ref, idx *Term) *Term {
@@ -664,7 +766,7 @@ func (x *Exec) modRegion(e *Expr, env *SpecEnv) []modRegion {
 		if !ok {
 			env.errf(e, "x[*] on non-slice")
 		}
-		key, hs := elemHeapKey(sortOf(sl.Elem()))
+		key, hs := elemHeapKey(sl.Elem())
 		heapSorts[key] = hs
 		t := b.T
 		return []modRegion{{Key: key, Sort: hs, In: func(ref, idx *Term) *Term {
@@ -718,7 +820,7 @@ func (x *Exec) havocRegions(st, pre *State, regions []modRegion) {
 			st.setH(k, cur)
 			continue
 		}
-		nh := Fresh("hv_"+k, hs)
+		nh := freshHeap(st, k, "call")
 		r := BoundVar("q_r", "Int")
 		in := func(ref, idx *Term) *Term {
 			var ds []*Term
@@ -755,6 +857,7 @@ func (x *Exec) verifyFunction(con *Contract) {
 	x.cur = con
 	x.curKey = con.Func
 	x.facts = nil
+	x.meaningDone = map[*ssa.Function]bool{}
 	start := len(x.obls)
 	defer func() {
 		if r := recover(); r != nil {
